@@ -40,22 +40,22 @@ ASSUMPTIONS = ['flags.enable_conn_pool is False (default)',
                'C05_noninterference: every work only names descriptors it owns (documented assumption of _update_work_events) '
                'and tasks complete in the iteration that created them (true of all handlers shipped with proxy.py)',
                'constructing the work object (work_klass(...)) does not raise; BaseException (KeyboardInterrupt, CancelledError) is out of scope']
-SHARD = 24
+SHARD = 18
 
 
 # ----------------------------------------------------------------------------- generation
 def generate(rng, tier):
     quick = tier != 'thorough'
     cases = []
-    for _ in range(170 if quick else 5000):
+    for _ in range(130 if quick else 5000):
         cases.append(X.gen_schedule(rng))
-    for _ in range(110 if quick else 3500):
+    for _ in range(90 if quick else 3500):
         n = rng.randrange(2, 5)
         c = X.gen_schedule(rng, n_works=n, suspend=False, collide=False, adversarial_frac=0.0,
                            tick_limit=rng.choice([2, 3, 5, 8, 39]))
         make_canary_case(rng, c)
         cases.append(c)
-    for _ in range(40 if quick else 1500):
+    for _ in range(30 if quick else 1500):
         c = X.gen_schedule(rng)
         c['kind'] = 'asfound'; c['asfound'] = True
         cases.append(c)
